@@ -3,6 +3,8 @@
 package ui
 
 import (
+	"runtime"
+	"sync"
 	"io"
 	"os"
 	"os/exec"
@@ -34,7 +36,72 @@ func (v *vItem) text() string {
 }
 func (v *vItem) String(width int) string  { return v.text() }
 func (v *vItem) Preview(width int) string { return v.text() }
+// ---- native only: background loads stay in flight until the harness settles
+//
+// Under the engine a goroutine started by the UI runs when the harness
+// settles (or the main thread blocks), so a load begun by one key is still
+// in flight when the next key arrives. Natively the stub loaders would
+// finish at once; to replay the same situation they wait, when called from
+// one of loadSurroundings' goroutines, until the harness calls Settle.
+
+var loadGate struct {
+	mu sync.Mutex
+	ch chan struct{} // created on first use (natively only)
+}
+
+func openLoadGate() {
+	loadGate.mu.Lock()
+	if loadGate.ch == nil {
+		loadGate.ch = make(chan struct{})
+	}
+	select {
+	case <-loadGate.ch:
+	default:
+		close(loadGate.ch)
+	}
+	loadGate.mu.Unlock()
+}
+
+func closeLoadGate() {
+	loadGate.mu.Lock()
+	loadGate.ch = make(chan struct{})
+	loadGate.mu.Unlock()
+}
+
+func waitForLoadGate() {
+	if verifrt.Symbolic() {
+		return
+	}
+	pc := make([]uintptr, 32)
+	n := runtime.Callers(2, pc)
+	frames := runtime.CallersFrames(pc[:n])
+	background := false
+	for {
+		f, more := frames.Next()
+		if strings.Contains(f.Function, "loadSurroundings.func") {
+			background = true
+		}
+		if !more {
+			break
+		}
+	}
+	if !background {
+		return
+	}
+	loadGate.mu.Lock()
+	if loadGate.ch == nil {
+		loadGate.ch = make(chan struct{})
+	}
+	ch := loadGate.ch
+	loadGate.mu.Unlock()
+	select {
+	case <-ch:
+	case <-time.After(3 * time.Second):
+	}
+}
+
 func (v *vItem) Parents(q uint) ([]pub.Tangible, pub.Tangible) {
+	waitForLoadGate()
 	if int(q) >= len(v.parents) {
 		return v.parents, nil
 	}
@@ -168,6 +235,7 @@ type vContainer struct {
 }
 
 func (c *vContainer) Harvest(quantity uint, startingAt uint) ([]pub.Tangible, pub.Container, uint) {
+	waitForLoadGate()
 	n := uint(len(c.items))
 	if startingAt >= n {
 		return []pub.Tangible{}, nil, 0
